@@ -1406,6 +1406,39 @@ func c15Oracle(c *oracleCtx) {
 		}
 		return ""
 	})
+	c.check("nested-mapasync", true, func() string {
+		// a pure mapping function may itself use the async variants (rows of a table, an object of lists)
+		rows := NewList(NewList(1, 2), NewList(3), NewList())
+		obj := NewObject("a", NewList(1, 2), "b", NewList(3))
+		inner := func(_ int, v any) any { return v.(int) * 10 }
+		type res struct{ l, o string }
+		done := make(chan res, 1)
+		go func() {
+			rl := rows.MapAsync(func(_ int, v any) any { return v.(List).MapAsync(inner) })
+			ro := obj.MapAsync(func(_ string, v any) any { return v.(List).MapAsync(inner) })
+			var n int
+			var mu sync.Mutex
+			obj.ForEachAsync(func(_ string, v any) {
+				_ = v.(List).MapAsync(inner)
+				mu.Lock()
+				n++
+				mu.Unlock()
+			})
+			done <- res{rl.String(), ro.String()}
+		}()
+		select {
+		case r := <-done:
+			wl := rows.Map(func(_ int, v any) any { return v.(List).Map(inner) }).String()
+			wo := obj.Map(func(_ string, v any) any { return v.(List).Map(inner) })
+			got, _ := ParseObject(r.o)
+			if r.l != wl || got == nil || !got.Equals(wo) {
+				return fmt.Sprintf("nested MapAsync gives %s / %s, the sequential variants give %s / %s", r.l, r.o, wl, wo.String())
+			}
+		case <-time.After(8 * time.Second):
+			return "MapAsync whose mapping function uses MapAsync did not return within 8s"
+		}
+		return ""
+	})
 	runtime.GOMAXPROCS(8)
 	c.check("readers", true, func() string {
 		for r := 0; r < reps; r++ {
